@@ -10,7 +10,8 @@ mod k3 {
     use crate::p3::na::{self, Unit};
     use crate::p3::math::{Isometry, Point, Real, Vector};
     use crate::p3::query::{self, ClosestPoints, DefaultQueryDispatcher, QueryDispatcher};
-    use crate::p3::shape::{Ball, Capsule, Cone, ConvexPolyhedron, Cuboid, Cylinder, HalfSpace, Segment, Shape, Triangle};
+    use crate::p3::shape::{Ball, Capsule, Cone, ConvexPolyhedron, Cuboid, Cylinder, HalfSpace, RoundShape, Segment, Shape, Triangle};
+    use crate::p3::query::gjk::{GJKResult, VoronoiSimplex};
 
     pub const KINDS: [&str; 9] = ["ball", "cuboid", "capsule", "segment", "triangle", "cone", "cylinder", "convex", "halfspace"];
 
@@ -18,7 +19,7 @@ mod k3 {
     pub enum Sh {
         Ball(f64), Cuboid(Vector<Real>), Capsule(Point<Real>, Point<Real>, f64), Segment(Point<Real>, Point<Real>),
         Triangle(Point<Real>, Point<Real>, Point<Real>), Cone(f64, f64), Cylinder(f64, f64), Convex(Vec<Point<Real>>),
-        Halfspace(Vector<Real>),
+        Halfspace(Vector<Real>), Round(Box<Sh>, f64),
     }
     impl Sh {
         pub fn tokens(&self) -> String {
@@ -32,10 +33,12 @@ mod k3 {
                 Sh::Cylinder(h, r) => format!("cylinder {} {}", hx(*h), hx(*r)),
                 Sh::Convex(ps) => format!("convex {} {}", ps.len(), ps.iter().map(d3::hp).collect::<Vec<_>>().join(" ")),
                 Sh::Halfspace(n) => format!("halfspace {}", d3::hv(n)),
+                Sh::Round(i, r) => format!("round {} {}", i.tokens(), hx(*r)),
             }
         }
         pub fn parse(a: &mut Args) -> Sh {
             match a.tok() {
+                "round" => { let i = Sh::parse(a); Sh::Round(Box::new(i), a.f()) }
                 "ball" => Sh::Ball(a.f()),
                 "cuboid" => Sh::Cuboid(d3::v(a)),
                 "capsule" => { let p = d3::p(a); let q = d3::p(a); Sh::Capsule(p, q, a.f()) }
@@ -59,10 +62,30 @@ mod k3 {
                 Sh::Cylinder(h, r) => Box::new(Cylinder::new(*h, *r)),
                 Sh::Convex(ps) => Box::new(ConvexPolyhedron::from_convex_hull(ps).expect("convex hull")),
                 Sh::Halfspace(n) => Box::new(HalfSpace::new(Unit::new_unchecked(*n))),
+                Sh::Round(i, r) => match &**i {
+                    Sh::Cuboid(h) => Box::new(RoundShape { inner_shape: Cuboid::new(*h), border_radius: *r }),
+                    Sh::Triangle(a, b, c) => Box::new(RoundShape { inner_shape: Triangle::new(*a, *b, *c), border_radius: *r }),
+                    Sh::Cylinder(h, rr) => Box::new(RoundShape { inner_shape: Cylinder::new(*h, *rr), border_radius: *r }),
+                    Sh::Cone(h, rr) => Box::new(RoundShape { inner_shape: Cone::new(*h, *rr), border_radius: *r }),
+                    Sh::Convex(ps) => Box::new(RoundShape { inner_shape: ConvexPolyhedron::from_convex_hull(ps).expect("convex hull"), border_radius: *r }),
+                    k => panic!("no round variant of {:?}", k),
+                },
+            }
+        }
+        /// the same shape with every defining point moved by `v` (centred kinds are returned unchanged)
+        pub fn shifted(&self, v: &Vector<Real>) -> Sh {
+            match self {
+                Sh::Capsule(a, b, r) => Sh::Capsule(a + v, b + v, *r),
+                Sh::Segment(a, b) => Sh::Segment(a + v, b + v),
+                Sh::Triangle(a, b, c) => Sh::Triangle(a + v, b + v, c + v),
+                Sh::Convex(ps) => Sh::Convex(ps.iter().map(|p| p + v).collect()),
+                Sh::Round(i, r) => Sh::Round(Box::new(i.shifted(v)), *r),
+                k => k.clone(),
             }
         }
         pub fn size(&self) -> f64 {
             match self {
+                Sh::Round(i, r) => i.size() + r,
                 Sh::Ball(r) => *r, Sh::Cuboid(h) => h.norm(), Sh::Capsule(a, b, r) => a.coords.norm().max(b.coords.norm()) + r,
                 Sh::Segment(a, b) => a.coords.norm().max(b.coords.norm()),
                 Sh::Triangle(a, b, c) => a.coords.norm().max(b.coords.norm()).max(c.coords.norm()),
@@ -115,9 +138,17 @@ mod k3 {
                     }
                 } },
             "halfspace" => Sh::Halfspace(gen_unit(r, lat)),
+            "roundcuboid" | "roundtriangle" | "roundcylinder" | "roundcone" | "roundconvex" => {
+                let i = gen_shape(r, &kind[5..], lat);
+                let br = if lat { *r.pick(&[0.125, 0.25, 0.5, 1.0]) } else { r.logu(0.01, 2.0) };
+                Sh::Round(Box::new(i), br) }
             _ => unreachable!(),
         }
     }
+    pub const ROUNDS: [&str; 5] = ["roundcuboid", "roundtriangle", "roundcylinder", "roundcone", "roundconvex"];
+    /// kinds that go through GJK (`as_support_map`), round variants included
+    pub const SM_KINDS: [&str; 12] = ["cuboid", "capsule", "segment", "triangle", "cone", "cylinder", "convex",
+        "roundcuboid", "roundtriangle", "roundcylinder", "roundcone", "roundconvex"];
     fn volume(ps: &[Point<Real>]) -> f64 {
         // crude: max tetra volume from the first point
         let mut best: f64 = 0.0;
@@ -189,12 +220,142 @@ mod k3 {
                 let (g1, g2) = (s1.build(), s2.build());
                 let r = DefaultQueryDispatcher.closest_points(&p12, &*g1, &*g2, m);
                 format!("{} {}", fcp(&r), tail_local(&p12, &*g1, &*g2)) }
+            // ONE simplex shared by a sequence of `*_with_params` queries (the entry points reset it themselves)
+            "vs3" => exec_vs(a),
+            // the same history, printed for the bit-exact model: result (+ direction) and the simplex left behind by every query
+            "gjkm3" => { let n = a.u(); let mut simplex = VoronoiSimplex::new(); let mut out = Vec::new();
+                for _ in 0..n {
+                    let op = a.tok().to_string();
+                    let m = if op == "c" { a.f() } else { 0.0 };
+                    let s1 = Sh::parse(a); let s2 = Sh::parse(a); let p12 = d3::iso(a);
+                    let (g1, g2) = (s1.build(), s2.build());
+                    let (m1, m2) = (g1.as_support_map().expect("support map"), g2.as_support_map().expect("support map"));
+                    let head = quiet(|| if op == "d" {
+                        ff(query::details::distance_support_map_support_map_with_params(&p12, m1, m2, &mut simplex, None))
+                    } else {
+                        match query::details::closest_points_support_map_support_map_with_params(&p12, m1, m2, m, &mut simplex, None) {
+                            GJKResult::ClosestPoints(p1, p2, d) => format!("W {} {} {}", d3::fp(&p1), d3::fp(&p2), d3::fv(&d)),
+                            GJKResult::NoIntersection(d) => format!("D {}", d3::fv(&d)),
+                            GJKResult::Intersection => "I".into(),
+                            GJKResult::Proximity(d) => format!("U {}", d3::fv(&d)),
+                        }
+                    });
+                    match head { Some(h) => out.push(format!("{} {}", h, vs_dump(&simplex))), None => { out.push("panic".into()); break; } }
+                }
+                out.join(" ") }
+            "gjkh3" => { let n = a.u(); let mut simplex = VoronoiSimplex::new(); let mut out = Vec::new();
+                for _ in 0..n {
+                    let op = a.tok().to_string();
+                    let m = if op == "c" { a.f() } else { 0.0 };
+                    let s1 = Sh::parse(a); let s2 = Sh::parse(a); let p12 = d3::iso(a);
+                    let (g1, g2) = (s1.build(), s2.build());
+                    let (m1, m2) = (g1.as_support_map().expect("support map"), g2.as_support_map().expect("support map"));
+                    let head = if op == "d" {
+                        ff(query::details::distance_support_map_support_map_with_params(&p12, m1, m2, &mut simplex, None))
+                    } else {
+                        match query::details::closest_points_support_map_support_map_with_params(&p12, m1, m2, m, &mut simplex, None) {
+                            GJKResult::ClosestPoints(p1, p2, _) => format!("W {} {}", d3::fp(&p1), d3::fp(&p2)),
+                            GJKResult::NoIntersection(_) => "D".into(),
+                            GJKResult::Intersection => "I".into(),
+                            GJKResult::Proximity(_) => "U".into(),
+                        }
+                    };
+                    out.push(format!("{} {}", head, tail_local(&p12, &*g1, &*g2)));
+                }
+                out.join(" ") }
             _ => return None,
         })
     }
 
+    // ---- VoronoiSimplex histories
+    use crate::p3::query::gjk::CSOPoint;
+    fn vs_dump(s: &VoronoiSimplex) -> String {
+        let (dm, pd) = (s.dimension(), s.prev_dimension());
+        let mut t = vec![format!("S {} {}", dm, pd)];
+        for i in 0..=dm { let c = s.point(i); t.push(format!("{} {} {}", d3::fp(&c.point), d3::fp(&c.orig1), d3::fp(&c.orig2))); }
+        for i in 0..=dm.min(3 - 1) { t.push(ff(s.proj_coord(i))); }
+        for i in 0..=pd { t.push(d3::fp(&s.prev_point(i).point)); }
+        for i in 0..=pd.min(3 - 1) { t.push(ff(s.prev_proj_coord(i))); }
+        t.join(" ")
+    }
+    pub fn exec_vs(a: &mut Args) -> String {
+        let n = a.u(); let mut s = VoronoiSimplex::new(); let mut out: Vec<String> = Vec::new();
+        for _ in 0..n {
+            let op = a.tok().to_string();
+            let r = match op.as_str() {
+                "R" => { let o1 = d3::p(a); let o2 = d3::p(a); quiet(|| { s.reset(CSOPoint::new(o1, o2)); vs_dump(&s) }) }
+                "A" => { let o1 = d3::p(a); let o2 = d3::p(a); quiet(|| { let r = s.add_point(CSOPoint::new(o1, o2)); format!("{} {}", b(r), vs_dump(&s)) }) }
+                "P" => quiet(|| { let p = s.project_origin_and_reduce(); format!("{} {}", d3::fp(&p), vs_dump(&s)) }),
+                "C" => { let p = d3::p(a); quiet(|| b(s.contains_point(&p)).to_string()) }
+                k => panic!("bad op {}", k),
+            };
+            match r { Some(t) => out.push(t), None => { out.push("panic".into()); break; } }
+        }
+        out.join(" ")
+    }
+    /// a GJK-like history on one simplex: reset, then add / reduce rounds, `contains_point` probes, resets in the middle
+    /// (also on a simplex of dimension >= 1). The real simplex is run alongside to know when it is full.
+    pub fn gen_vs(r: &mut Rng, lat: bool) -> String {
+        let sc = if lat { 1.0 } else { r.logu(0.05, 20.0) };
+        let c = |r: &mut Rng| if lat { r.lattice(4, 1) } else { r.uniform(-sc, sc) };
+        let mut s = VoronoiSimplex::new();
+        let mut ops: Vec<String> = Vec::new();
+        let nrounds = 3 + r.below(10) as usize;
+        let (o1, o2) = (Point::new(c(r), c(r), c(r)), Point::new(c(r), c(r), c(r)));
+        s.reset(CSOPoint::new(o1, o2)); ops.push(format!("R {} {}", d3::hp(&o1), d3::hp(&o2)));
+        for _ in 0..nrounds {
+            match r.below(8) {
+                0 => { // reset in the middle of a run, whatever the current dimension
+                    let (o1, o2) = (Point::new(c(r), c(r), c(r)), Point::new(c(r), c(r), c(r)));
+                    s.reset(CSOPoint::new(o1, o2)); ops.push(format!("R {} {}", d3::hp(&o1), d3::hp(&o2))); }
+                1 => { // probe: a live vertex (true) or an arbitrary point
+                    let p = if r.bool() { s.point(r.below(s.dimension() as u64 + 1) as usize).point } else { Point::new(c(r), c(r), c(r)) };
+                    ops.push(format!("C {}", d3::hp(&p))); }
+                _ => {
+                    if s.dimension() >= 3 { continue; }
+                    // tie cases: a second copy of a live vertex / the origin itself as CSO point / the mirror image of a vertex
+                    let (o1, o2) = match r.below(10) {
+                        0 => { let q = s.point(0); (q.orig1, q.orig2) }
+                        1 => { let o = Point::new(c(r), c(r), c(r)); (o, o) }
+                        2 => { let q = s.point(0); (q.orig2, q.orig1) }
+                        _ => (Point::new(c(r), c(r), c(r)), Point::new(c(r), c(r), c(r))),
+                    };
+                    let ok = quiet(|| s.add_point(CSOPoint::new(o1, o2)));
+                    ops.push(format!("A {} {}", d3::hp(&o1), d3::hp(&o2)));
+                    if ok.is_none() { break; }
+                    if r.below(6) != 0 { ops.push("P".into()); if quiet(|| s.project_origin_and_reduce()).is_none() { break; } }
+                }
+            }
+        }
+        format!("{} {}", ops.len(), ops.join(" "))
+    }
+
     pub fn gen_margin(r: &mut Rng, lat: bool) -> f64 {
         if lat { *r.pick(&[0.0, 0.25, 0.5, 1.0, 4.0]) } else { match r.below(4) { 0 => 0.0, 1 => r.logu(1e-3, 1.0), _ => r.logu(0.1, 50.0) } }
+    }
+
+    /// one placed pair, all three end-to-end entry points. `mode` 0: coincident frames (relative translation exactly zero,
+    /// shape 2 moved off-centre inside its own frame), 1: relative translation below `DEFAULT_EPSILON`, 2: generic.
+    fn push_placed(r: &mut Rng, v: &mut Vec<(String, String)>, k1: &str, k2: &str, lat: bool, mode: usize) {
+        let s1 = gen_shape(r, k1, lat); let mut s2 = gen_shape(r, k2, lat);
+        let reach = s1.size() + s2.size();
+        let u = gen_unit(r, lat);
+        let dist = if lat { *r.pick(&[0.0, 2.0, 4.0, 8.0]) } else { reach * r.uniform(0.0, 2.5) };
+        let mut p12 = if r.below(4) == 0 { Isometry::identity() } else { d3::gen_iso(r, lat, 0.0) };
+        match mode {
+            0 => { s2 = s2.shifted(&(u * dist)); p12.translation.vector = Vector::zeros(); }
+            1 => { s2 = s2.shifted(&(u * dist)); p12.translation.vector = Vector::new(1.0e-17, -3.0e-18, 0.0); }
+            _ => { p12.translation.vector = u * dist; }
+        }
+        let reach = s1.size() + s2.size();
+        let p1 = if r.below(3) == 0 { Isometry::identity() } else { d3::gen_iso(r, lat, 5.0) };
+        // coincident frames in world space too: pos2 is the very same isometry when the relative pose is the identity
+        let p2 = if p12 == Isometry::identity() { p1 } else { p1 * p12 };
+        let m = match r.below(4) { 0 => 0.0, 1 => f64::MAX, _ => reach * r.uniform(0.0, 3.0) };
+        let w = format!("{} {} {} {}", s1.tokens(), d3::hiso(&p1), s2.tokens(), d3::hiso(&p2));
+        v.push(("cp3".into(), format!("{} {}", hx(m), w)));
+        v.push(("dist3".into(), w));
+        v.push(("cpl3".into(), format!("{} {} {} {}", hx(m), s1.tokens(), s2.tokens(), d3::hiso(&p12))));
     }
 
     pub fn gen(r: &mut Rng, thorough: bool, v: &mut Vec<(String, String)>) {
@@ -270,6 +431,66 @@ mod k3 {
                 v.push(("cpl3".into(), format!("{} {} {} {}", hx(m), s1.tokens(), s2.tokens(), d3::hiso(&p12))));
             } }
         }
+        // ---- round shapes and coincident frames: every GJK kind against every round variant (both orders), poses with
+        //      zero / sub-epsilon / generic relative translation; off-centre shapes so that coincident frames can be disjoint
+        { // forked generator: the older streams keep their cases
+        let mut fr = Rng(r.0 ^ 0x5EED_0C01); let r = &mut fr;
+        let reps = if thorough { 10 } else { 1 };
+        for rep in 0..reps {
+            for (ia, ka) in SM_KINDS.iter().enumerate() { for (ib, kb) in ROUNDS.iter().enumerate() {
+                let lat = (rep + ia + ib) % 3 == 0;
+                let (k1, k2) = if (ia + ib + rep) % 2 == 0 { (*ka, *kb) } else { (*kb, *ka) };
+                push_placed(r, v, k1, k2, lat, (ia + ib + rep) % 3);
+            } }
+            // plain GJK pairs in coincident frames
+            for ka in SM_KINDS[..7].iter() { for kb in SM_KINDS[..7].iter() { if r.below(3) == 0 { push_placed(r, v, ka, kb, rep % 2 == 0, 0); } } }
+        }
+        // ---- histories: one simplex, 2-5 consecutive `_with_params` queries on unrelated pairs / poses
+        let nh = if thorough { 600 } else { 60 };
+        for it in 0..nh {
+            let lat = it % 3 == 0;
+            let n = 2 + r.below(4) as usize;
+            let mut toks = vec![format!("{}", n)];
+            // half of the histories keep the same two shapes and only move them (a simulation step), half change shapes
+            let same = r.bool();
+            let mut pair = ({ let k = *r.pick(&SM_KINDS); gen_shape(r, k, lat) }, { let k = *r.pick(&SM_KINDS); gen_shape(r, k, lat) });
+            for _ in 0..n {
+                if !same { pair = ({ let k = *r.pick(&SM_KINDS); gen_shape(r, k, lat) }, { let k = *r.pick(&SM_KINDS); gen_shape(r, k, lat) }); }
+                let reach = pair.0.size() + pair.1.size();
+                let mut p12 = d3::gen_iso(r, lat, 0.0);
+                let dist = if lat { *r.pick(&[0.0, 2.0, 4.0, 8.0]) } else { reach * r.uniform(0.3, 2.5) };
+                p12.translation.vector = gen_unit(r, lat) * dist;
+                let op = if r.bool() { "d".to_string() } else { format!("c {}", hx(if r.bool() { f64::MAX } else { reach * r.uniform(0.0, 3.0) })) };
+                toks.push(format!("{} {} {} {}", op, pair.0.tokens(), pair.1.tokens(), d3::hiso(&p12)));
+            }
+            v.push(("gjkh3".into(), toks.join(" ")));
+        }
+        let nv = if thorough { 6000 } else { 600 };
+        for it in 0..nv { let h = gen_vs(r, it % 2 == 0); v.push(("vs3".into(), h)); }
+        // ---- modelled histories (bit-exact): support maps of the C10 model only, incl. coincident frames (x-axis start direction)
+        const MK: [&str; 11] = ["cuboid", "capsule", "segment", "triangle", "cone", "cylinder", "ball", "roundcuboid", "roundtriangle", "roundcylinder", "roundcone"];
+        let nm = if thorough { 1500 } else { 150 };
+        for it in 0..nm {
+            let lat = it % 3 == 0;
+            let n = 1 + r.below(4) as usize;
+            let mut toks = vec![format!("{}", n)];
+            let same = r.bool();
+            let mut pair = ({ let k = *r.pick(&MK); gen_shape(r, k, lat) }, { let k = *r.pick(&MK); gen_shape(r, k, lat) });
+            for _ in 0..n {
+                if !same { pair = ({ let k = *r.pick(&MK); gen_shape(r, k, lat) }, { let k = *r.pick(&MK); gen_shape(r, k, lat) }); }
+                let reach = pair.0.size() + pair.1.size();
+                let mut p12 = if r.below(5) == 0 { Isometry::identity() } else { d3::gen_iso(r, lat, 0.0) };
+                let dist = if lat { *r.pick(&[0.0, 2.0, 4.0, 8.0]) } else { reach * r.uniform(0.0, 2.5) };
+                let off = gen_unit(r, lat) * dist;
+                let mut g2 = pair.1.clone();
+                if r.below(4) == 0 { g2 = g2.shifted(&off); p12.translation.vector = Vector::zeros(); } else { p12.translation.vector = off; }
+                let reach = pair.0.size() + g2.size();
+                let op = if r.bool() { "d".to_string() } else { format!("c {}", hx(if r.bool() { f64::MAX } else { reach * r.uniform(0.0, 3.0) })) };
+                toks.push(format!("{} {} {} {}", op, pair.0.tokens(), g2.tokens(), d3::hiso(&p12)));
+            }
+            v.push(("gjkm3".into(), toks.join(" ")));
+        }
+        }
         // ---- focused streams for the SAT-derived routes: closest_points triangle×cuboid and distance cuboid×cuboid
         let nf = if thorough { 3000 } else { 250 };
         for it in 0..nf {
@@ -299,14 +520,15 @@ mod k2 {
     use crate::p2::na::{self, Unit};
     use crate::p2::math::{Isometry, Point, Real, Vector};
     use crate::p2::query::{self, ClosestPoints, DefaultQueryDispatcher, QueryDispatcher};
-    use crate::p2::shape::{Ball, Capsule, ConvexPolygon, Cuboid, HalfSpace, Segment, Shape, Triangle};
+    use crate::p2::shape::{Ball, Capsule, ConvexPolygon, Cuboid, HalfSpace, RoundShape, Segment, Shape, Triangle};
+    use crate::p2::query::gjk::{GJKResult, VoronoiSimplex};
 
     pub const KINDS: [&str; 7] = ["ball", "cuboid", "capsule", "segment", "triangle", "convex", "halfspace"];
 
     #[derive(Clone, Debug)]
     pub enum Sh {
         Ball(f64), Cuboid(Vector<Real>), Capsule(Point<Real>, Point<Real>, f64), Segment(Point<Real>, Point<Real>),
-        Triangle(Point<Real>, Point<Real>, Point<Real>), Convex(Vec<Point<Real>>), Halfspace(Vector<Real>),
+        Triangle(Point<Real>, Point<Real>, Point<Real>), Convex(Vec<Point<Real>>), Halfspace(Vector<Real>), Round(Box<Sh>, f64),
     }
     impl Sh {
         pub fn tokens(&self) -> String {
@@ -318,10 +540,12 @@ mod k2 {
                 Sh::Triangle(a, b, c) => format!("triangle {} {} {}", d2::hp(a), d2::hp(b), d2::hp(c)),
                 Sh::Convex(ps) => format!("convex {} {}", ps.len(), ps.iter().map(d2::hp).collect::<Vec<_>>().join(" ")),
                 Sh::Halfspace(n) => format!("halfspace {}", d2::hv(n)),
+                Sh::Round(i, r) => format!("round {} {}", i.tokens(), hx(*r)),
             }
         }
         pub fn parse(a: &mut Args) -> Sh {
             match a.tok() {
+                "round" => { let i = Sh::parse(a); Sh::Round(Box::new(i), a.f()) }
                 "ball" => Sh::Ball(a.f()),
                 "cuboid" => Sh::Cuboid(d2::v(a)),
                 "capsule" => { let p = d2::p(a); let q = d2::p(a); Sh::Capsule(p, q, a.f()) }
@@ -341,10 +565,27 @@ mod k2 {
                 Sh::Triangle(a, b, c) => Box::new(Triangle::new(*a, *b, *c)),
                 Sh::Convex(ps) => Box::new(ConvexPolygon::from_convex_hull(ps).expect("convex hull")),
                 Sh::Halfspace(n) => Box::new(HalfSpace::new(Unit::new_unchecked(*n))),
+                Sh::Round(i, r) => match &**i {
+                    Sh::Cuboid(h) => Box::new(RoundShape { inner_shape: Cuboid::new(*h), border_radius: *r }),
+                    Sh::Triangle(a, b, c) => Box::new(RoundShape { inner_shape: Triangle::new(*a, *b, *c), border_radius: *r }),
+                    Sh::Convex(ps) => Box::new(RoundShape { inner_shape: ConvexPolygon::from_convex_hull(ps).expect("convex hull"), border_radius: *r }),
+                    k => panic!("no round variant of {:?}", k),
+                },
+            }
+        }
+        pub fn shifted(&self, v: &Vector<Real>) -> Sh {
+            match self {
+                Sh::Capsule(a, b, r) => Sh::Capsule(a + v, b + v, *r),
+                Sh::Segment(a, b) => Sh::Segment(a + v, b + v),
+                Sh::Triangle(a, b, c) => Sh::Triangle(a + v, b + v, c + v),
+                Sh::Convex(ps) => Sh::Convex(ps.iter().map(|p| p + v).collect()),
+                Sh::Round(i, r) => Sh::Round(Box::new(i.shifted(v)), *r),
+                k => k.clone(),
             }
         }
         pub fn size(&self) -> f64 {
             match self {
+                Sh::Round(i, r) => i.size() + r,
                 Sh::Ball(r) => *r, Sh::Cuboid(h) => h.norm(), Sh::Capsule(a, b, r) => a.coords.norm().max(b.coords.norm()) + r,
                 Sh::Segment(a, b) => a.coords.norm().max(b.coords.norm()),
                 Sh::Triangle(a, b, c) => a.coords.norm().max(b.coords.norm()).max(c.coords.norm()),
@@ -385,9 +626,15 @@ mod k2 {
                     }
                 } },
             "halfspace" => Sh::Halfspace(gen_unit(r, lat)),
+            "roundcuboid" | "roundtriangle" | "roundconvex" => {
+                let i = gen_shape(r, &kind[5..], lat);
+                let br = if lat { *r.pick(&[0.125, 0.25, 0.5, 1.0]) } else { r.logu(0.01, 2.0) };
+                Sh::Round(Box::new(i), br) }
             _ => unreachable!(),
         }
     }
+    pub const ROUNDS: [&str; 3] = ["roundcuboid", "roundtriangle", "roundconvex"];
+    pub const SM_KINDS: [&str; 8] = ["cuboid", "capsule", "segment", "triangle", "convex", "roundcuboid", "roundtriangle", "roundconvex"];
 
     pub fn fcp(r: &Result<ClosestPoints, query::Unsupported>) -> String {
         match r {
@@ -439,11 +686,192 @@ mod k2 {
                 let (g1, g2) = (s1.build(), s2.build());
                 let r = DefaultQueryDispatcher.closest_points(&p12, &*g1, &*g2, m);
                 format!("{} {}", fcp(&r), tail_local(&p12, &*g1, &*g2)) }
+            "vs2" => exec_vs(a),
+            // the same history, printed for the bit-exact model: result (+ direction) and the simplex left behind by every query
+            "gjkm2" => { let n = a.u(); let mut simplex = VoronoiSimplex::new(); let mut out = Vec::new();
+                for _ in 0..n {
+                    let op = a.tok().to_string();
+                    let m = if op == "c" { a.f() } else { 0.0 };
+                    let s1 = Sh::parse(a); let s2 = Sh::parse(a); let p12 = d2::iso(a);
+                    let (g1, g2) = (s1.build(), s2.build());
+                    let (m1, m2) = (g1.as_support_map().expect("support map"), g2.as_support_map().expect("support map"));
+                    let head = quiet(|| if op == "d" {
+                        ff(query::details::distance_support_map_support_map_with_params(&p12, m1, m2, &mut simplex, None))
+                    } else {
+                        match query::details::closest_points_support_map_support_map_with_params(&p12, m1, m2, m, &mut simplex, None) {
+                            GJKResult::ClosestPoints(p1, p2, d) => format!("W {} {} {}", d2::fp(&p1), d2::fp(&p2), d2::fv(&d)),
+                            GJKResult::NoIntersection(d) => format!("D {}", d2::fv(&d)),
+                            GJKResult::Intersection => "I".into(),
+                            GJKResult::Proximity(d) => format!("U {}", d2::fv(&d)),
+                        }
+                    });
+                    match head { Some(h) => out.push(format!("{} {}", h, vs_dump(&simplex))), None => { out.push("panic".into()); break; } }
+                }
+                out.join(" ") }
+            "gjkh2" => { let n = a.u(); let mut simplex = VoronoiSimplex::new(); let mut out = Vec::new();
+                for _ in 0..n {
+                    let op = a.tok().to_string();
+                    let m = if op == "c" { a.f() } else { 0.0 };
+                    let s1 = Sh::parse(a); let s2 = Sh::parse(a); let p12 = d2::iso(a);
+                    let (g1, g2) = (s1.build(), s2.build());
+                    let (m1, m2) = (g1.as_support_map().expect("support map"), g2.as_support_map().expect("support map"));
+                    let head = if op == "d" {
+                        ff(query::details::distance_support_map_support_map_with_params(&p12, m1, m2, &mut simplex, None))
+                    } else {
+                        match query::details::closest_points_support_map_support_map_with_params(&p12, m1, m2, m, &mut simplex, None) {
+                            GJKResult::ClosestPoints(p1, p2, _) => format!("W {} {}", d2::fp(&p1), d2::fp(&p2)),
+                            GJKResult::NoIntersection(_) => "D".into(),
+                            GJKResult::Intersection => "I".into(),
+                            GJKResult::Proximity(_) => "U".into(),
+                        }
+                    };
+                    out.push(format!("{} {}", head, tail_local(&p12, &*g1, &*g2)));
+                }
+                out.join(" ") }
             _ => return None,
         })
     }
 
+    // ---- VoronoiSimplex histories
+    use crate::p2::query::gjk::CSOPoint;
+    fn vs_dump(s: &VoronoiSimplex) -> String {
+        let (dm, pd) = (s.dimension(), s.prev_dimension());
+        let mut t = vec![format!("S {} {}", dm, pd)];
+        for i in 0..=dm { let c = s.point(i); t.push(format!("{} {} {}", d2::fp(&c.point), d2::fp(&c.orig1), d2::fp(&c.orig2))); }
+        for i in 0..=dm.min(2 - 1) { t.push(ff(s.proj_coord(i))); }
+        for i in 0..=pd { t.push(d2::fp(&s.prev_point(i).point)); }
+        for i in 0..=pd.min(2 - 1) { t.push(ff(s.prev_proj_coord(i))); }
+        t.join(" ")
+    }
+    pub fn exec_vs(a: &mut Args) -> String {
+        let n = a.u(); let mut s = VoronoiSimplex::new(); let mut out: Vec<String> = Vec::new();
+        for _ in 0..n {
+            let op = a.tok().to_string();
+            let r = match op.as_str() {
+                "R" => { let o1 = d2::p(a); let o2 = d2::p(a); quiet(|| { s.reset(CSOPoint::new(o1, o2)); vs_dump(&s) }) }
+                "A" => { let o1 = d2::p(a); let o2 = d2::p(a); quiet(|| { let r = s.add_point(CSOPoint::new(o1, o2)); format!("{} {}", b(r), vs_dump(&s)) }) }
+                "P" => quiet(|| { let p = s.project_origin_and_reduce(); format!("{} {}", d2::fp(&p), vs_dump(&s)) }),
+                "C" => { let p = d2::p(a); quiet(|| b(s.contains_point(&p)).to_string()) }
+                k => panic!("bad op {}", k),
+            };
+            match r { Some(t) => out.push(t), None => { out.push("panic".into()); break; } }
+        }
+        out.join(" ")
+    }
+    /// a GJK-like history on one simplex: reset, then add / reduce rounds, `contains_point` probes, resets in the middle
+    /// (also on a simplex of dimension >= 1). The real simplex is run alongside to know when it is full.
+    pub fn gen_vs(r: &mut Rng, lat: bool) -> String {
+        let sc = if lat { 1.0 } else { r.logu(0.05, 20.0) };
+        let c = |r: &mut Rng| if lat { r.lattice(4, 1) } else { r.uniform(-sc, sc) };
+        let mut s = VoronoiSimplex::new();
+        let mut ops: Vec<String> = Vec::new();
+        let nrounds = 3 + r.below(10) as usize;
+        let (o1, o2) = (Point::new(c(r), c(r)), Point::new(c(r), c(r)));
+        s.reset(CSOPoint::new(o1, o2)); ops.push(format!("R {} {}", d2::hp(&o1), d2::hp(&o2)));
+        for _ in 0..nrounds {
+            match r.below(8) {
+                0 => { // reset in the middle of a run, whatever the current dimension
+                    let (o1, o2) = (Point::new(c(r), c(r)), Point::new(c(r), c(r)));
+                    s.reset(CSOPoint::new(o1, o2)); ops.push(format!("R {} {}", d2::hp(&o1), d2::hp(&o2))); }
+                1 => { // probe: a live vertex (true) or an arbitrary point
+                    let p = if r.bool() { s.point(r.below(s.dimension() as u64 + 1) as usize).point } else { Point::new(c(r), c(r)) };
+                    ops.push(format!("C {}", d2::hp(&p))); }
+                _ => {
+                    if s.dimension() >= 2 { continue; }
+                    // tie cases: a second copy of a live vertex / the origin itself as CSO point / the mirror image of a vertex
+                    let (o1, o2) = match r.below(10) {
+                        0 => { let q = s.point(0); (q.orig1, q.orig2) }
+                        1 => { let o = Point::new(c(r), c(r)); (o, o) }
+                        2 => { let q = s.point(0); (q.orig2, q.orig1) }
+                        _ => (Point::new(c(r), c(r)), Point::new(c(r), c(r))),
+                    };
+                    let ok = quiet(|| s.add_point(CSOPoint::new(o1, o2)));
+                    ops.push(format!("A {} {}", d2::hp(&o1), d2::hp(&o2)));
+                    if ok.is_none() { break; }
+                    if r.below(6) != 0 { ops.push("P".into()); if quiet(|| s.project_origin_and_reduce()).is_none() { break; } }
+                }
+            }
+        }
+        format!("{} {}", ops.len(), ops.join(" "))
+    }
+
+    fn push_placed(r: &mut Rng, v: &mut Vec<(String, String)>, k1: &str, k2: &str, lat: bool, mode: usize) {
+        let s1 = gen_shape(r, k1, lat); let mut s2 = gen_shape(r, k2, lat);
+        let reach = s1.size() + s2.size();
+        let u = gen_unit(r, lat);
+        let dist = if lat { *r.pick(&[0.0, 2.0, 4.0, 8.0]) } else { reach * r.uniform(0.0, 2.5) };
+        let mut p12 = if r.below(4) == 0 { Isometry::identity() } else { d2::gen_iso(r, lat, 0.0) };
+        match mode {
+            0 => { s2 = s2.shifted(&(u * dist)); p12.translation.vector = Vector::zeros(); }
+            1 => { s2 = s2.shifted(&(u * dist)); p12.translation.vector = Vector::new(1.0e-17, -3.0e-18); }
+            _ => { p12.translation.vector = u * dist; }
+        }
+        let reach = s1.size() + s2.size();
+        let p1 = if r.below(3) == 0 { Isometry::identity() } else { d2::gen_iso(r, lat, 5.0) };
+        let p2 = if p12 == Isometry::identity() { p1 } else { p1 * p12 };
+        let m = match r.below(4) { 0 => 0.0, 1 => f64::MAX, _ => reach * r.uniform(0.0, 3.0) };
+        let w = format!("{} {} {} {}", s1.tokens(), d2::hiso(&p1), s2.tokens(), d2::hiso(&p2));
+        v.push(("cp2".into(), format!("{} {}", hx(m), w)));
+        v.push(("dist2".into(), w));
+        v.push(("cpl2".into(), format!("{} {} {} {}", hx(m), s1.tokens(), s2.tokens(), d2::hiso(&p12))));
+    }
+
     pub fn gen(r: &mut Rng, thorough: bool, v: &mut Vec<(String, String)>) {
+        { // round shapes, coincident frames, simplex histories (forked generator: the older streams keep their cases)
+        let mut fr = Rng(r.0 ^ 0x5EED_2C01); let r = &mut fr;
+        let reps = if thorough { 20 } else { 2 };
+        for rep in 0..reps {
+            for (ia, ka) in SM_KINDS.iter().enumerate() { for (ib, kb) in ROUNDS.iter().enumerate() {
+                let lat = (rep + ia + ib) % 3 == 0;
+                let (k1, k2) = if (ia + ib + rep) % 2 == 0 { (*ka, *kb) } else { (*kb, *ka) };
+                push_placed(r, v, k1, k2, lat, (ia + ib + rep) % 3);
+            } }
+            for ka in SM_KINDS[..5].iter() { for kb in SM_KINDS[..5].iter() { if r.below(3) == 0 { push_placed(r, v, ka, kb, rep % 2 == 0, 0); } } }
+        }
+        let nh = if thorough { 800 } else { 80 };
+        for it in 0..nh {
+            let lat = it % 3 == 0;
+            let n = 2 + r.below(4) as usize;
+            let mut toks = vec![format!("{}", n)];
+            let same = r.bool();
+            let mut pair = ({ let k = *r.pick(&SM_KINDS); gen_shape(r, k, lat) }, { let k = *r.pick(&SM_KINDS); gen_shape(r, k, lat) });
+            for _ in 0..n {
+                if !same { pair = ({ let k = *r.pick(&SM_KINDS); gen_shape(r, k, lat) }, { let k = *r.pick(&SM_KINDS); gen_shape(r, k, lat) }); }
+                let reach = pair.0.size() + pair.1.size();
+                let mut p12 = d2::gen_iso(r, lat, 0.0);
+                let dist = if lat { *r.pick(&[0.0, 2.0, 4.0, 8.0]) } else { reach * r.uniform(0.3, 2.5) };
+                p12.translation.vector = gen_unit(r, lat) * dist;
+                let op = if r.bool() { "d".to_string() } else { format!("c {}", hx(if r.bool() { f64::MAX } else { reach * r.uniform(0.0, 3.0) })) };
+                toks.push(format!("{} {} {} {}", op, pair.0.tokens(), pair.1.tokens(), d2::hiso(&p12)));
+            }
+            v.push(("gjkh2".into(), toks.join(" ")));
+        }
+        let nv = if thorough { 6000 } else { 600 };
+        for it in 0..nv { let h = gen_vs(r, it % 2 == 0); v.push(("vs2".into(), h)); }
+        // ---- modelled histories (bit-exact): support maps of the C10 model only, incl. coincident frames (x-axis start direction)
+        const MK: [&str; 7] = ["cuboid", "capsule", "segment", "triangle", "ball", "roundcuboid", "roundtriangle"];
+        let nm = if thorough { 1500 } else { 150 };
+        for it in 0..nm {
+            let lat = it % 3 == 0;
+            let n = 1 + r.below(4) as usize;
+            let mut toks = vec![format!("{}", n)];
+            let same = r.bool();
+            let mut pair = ({ let k = *r.pick(&MK); gen_shape(r, k, lat) }, { let k = *r.pick(&MK); gen_shape(r, k, lat) });
+            for _ in 0..n {
+                if !same { pair = ({ let k = *r.pick(&MK); gen_shape(r, k, lat) }, { let k = *r.pick(&MK); gen_shape(r, k, lat) }); }
+                let reach = pair.0.size() + pair.1.size();
+                let mut p12 = if r.below(5) == 0 { Isometry::identity() } else { d2::gen_iso(r, lat, 0.0) };
+                let dist = if lat { *r.pick(&[0.0, 2.0, 4.0, 8.0]) } else { reach * r.uniform(0.0, 2.5) };
+                let off = gen_unit(r, lat) * dist;
+                let mut g2 = pair.1.clone();
+                if r.below(4) == 0 { g2 = g2.shifted(&off); p12.translation.vector = Vector::zeros(); } else { p12.translation.vector = off; }
+                let reach = pair.0.size() + g2.size();
+                let op = if r.bool() { "d".to_string() } else { format!("c {}", hx(if r.bool() { f64::MAX } else { reach * r.uniform(0.0, 3.0) })) };
+                toks.push(format!("{} {} {} {}", op, pair.0.tokens(), g2.tokens(), d2::hiso(&p12)));
+            }
+            v.push(("gjkm2".into(), toks.join(" ")));
+        }
+        }
         let n = if thorough { 3000 } else { 300 };
         for it in 0..n {
             let lat = it % 2 == 0;
